@@ -61,12 +61,15 @@ def init_worker(role):
         cfg.guard_pred = _g
         cfg.record_truth_tests = True
         cfg.arg_summary_all = True
+        cfg.emit_dict_pops = True
         cfg.stubs["prepare_attr_value"] = stub_prepare
 
         def red(trace, ev):
             if ev[0] == "W" and ev[1] in ("rawset", "rawdel"):
                 flag = "__spec_class_initializing__" in str(ev[4])
                 n = Event(("RAW", ev[1], "flag" if flag else "attr", ev[7] if not flag else (), ev[9]))
+            elif ev[0] == "DP":
+                n = Event(("POP", ev[-1]))
             elif ev[0] == "U":
                 nm = ev[1]
                 if ev[2] == "post_init":
@@ -176,8 +179,14 @@ def check(ctx, rep: Report):
     for pz in parents:
         if ".mro()" not in pz:
             bad.append(f"parent constructors are taken from `{pz.split('/.__init__')[0]}` rather than the full MRO: attributes owned by a grandparent are never initialised")
-    src = ast.unparse(fi.node)
-    if "kwargs.pop(" not in src:
+    popped = False
+    for row in res["own"]["rows"]:
+        tr = row["trace"]
+        ip = [i for i, e in enumerate(tr) if e[0] == "POP"]
+        ic = [i for i, e in enumerate(tr) if e[0] == "PARENT"]
+        if ip and ic and min(ip) < max(ic):
+            popped = True
+    if not popped:
         bad.append("a keyword forwarded to a parent constructor is not removed from kwargs")
     if any(e[0] == "PARENT" for row in res["parent"]["rows"] for e in row["trace"]):
         bad.append("a constructor invoked as parent invokes parent constructors again")
@@ -210,9 +219,27 @@ def check(ctx, rep: Report):
     rep.rules["C09.OVF"] = "truth table of the overflow filter over {key is a managed attribute, key is the overflow attribute}"
     comps = [n for n in walk_own(fi.node) if isinstance(n, ast.DictComp)]
     ok = False
-    detail = "no overflow comprehension"
+    detail = "the overflow dictionary is not filtered at all"
+    conds = None
     if comps:
         conds = comps[0].generators[0].ifs
+    else:
+        # explicit loop form: for k, v in kwargs.items(): [guards] d[k] = v
+        for loop in walk_own(fi.node):
+            if isinstance(loop, ast.For) and "kwargs" in ast.unparse(loop.iter) and isinstance(loop.target, ast.Tuple):
+                kname = ast.unparse(loop.target.elts[0])
+
+                def is_store(s, kname=kname):
+                    return isinstance(s, ast.Assign) and isinstance(s.targets[0], ast.Subscript) \
+                        and ast.unparse(s.targets[0].slice) == kname
+                rc = boolfn.reach_condition(loop.body, is_store)
+                if rc is not None:
+                    comps = [loop]
+                    conds = [] if rc is True else [rc]
+                    break
+        if conds is None and any(e[0] == "OVERFLOW" for row in res["own"]["rows"] for e in row["trace"]):
+            raise AnalysisError("C09.OVF: the construction of the overflow dictionary is in a form this rule does not read")
+    if conds is not None:
 
         def classify(n):
             t = ast.unparse(n)
